@@ -98,14 +98,27 @@ func (l dirItemList) size(joliet bool) sizeBytes {
 			entries = item.dirEntryJoliet
 		}
 
-		for _, entry := range entries {
-			ret += entry.size()
-		}
-
-		ret = ret.sectors().bytes() // directory entries of one directory aligned to sector
+		ret += dirEntriesSize(entries) // directory entries of one directory aligned to sector
 	}
 
 	return ret
+}
+
+// dirEntriesSize calculates size occupied by records of one directory.
+// Record must end in the same sector where it begins (ECMA-119 6.8.1.1),
+// so the rest of sector is skipped if the next record doesn't fit. The last sector is counted as a whole.
+func dirEntriesSize(entries []directoryEntry) sizeBytes {
+	var ret sizeBytes
+
+	for _, entry := range entries {
+		if ret%sectorSize+entry.size() > sectorSize {
+			ret = ret.sectors().bytes()
+		}
+
+		ret += entry.size()
+	}
+
+	return ret.sectors().bytes()
 }
 
 type fileItem struct {
